@@ -16,6 +16,7 @@ demos = [f for f in glob.glob(os.path.join(seed, "*")) if re.search(r"(_test\.go
 res = {"seed": seed, "demos": [os.path.basename(d) for d in demos]}
 if not demos:
     res["error"] = "no demo"; json.dump(res, open(os.path.join(seed, "confirm.json"), "w"), indent=1); print(res); sys.exit(1)
+demos.sort(key=lambda d: (os.path.basename(d) not in ("demo_test.go", "demo_test.py"), os.path.basename(d)))
 demo = demos[0]
 is_go = demo.endswith(".go")
 if is_go:
